@@ -451,7 +451,14 @@ class SchedRunner:
             if not gates and not unstarted:
                 if not alive:
                     break
-                # nothing for the harness to do: processes must finish on their own
+                # nothing for the harness to do: processes must finish on their own -- but tokens the harness still
+                # holds (taken for "sibling jobs of the parent make") come back first: those jobs end eventually,
+                # and a redo that waits for a token nobody will ever return is not redo's fault
+                if self.jp and self.jp.held > 0:
+                    n = self.jp.give(self.jp.held)
+                    self.token_log.append(("give-all-at-end", n))
+                    self.tl.decisions.append(("token", ("give-all-at-end", n)))
+                    continue
                 if not self.wait_progress(alive):
                     break
                 continue
